@@ -15,6 +15,7 @@ Require Import V.Proofs.RingSeqRun.
 Require Import V.Proofs.RingConc.
 Require Import V.Proofs.RingConcThm.
 Require Import V.Proofs.RingUnblock.
+Require Import V.Proofs.RingSweep.
 Require Import V.Proofs.C06OracleProofs.
 Require Import V.Oracle.C06Oracle.
 Require Import V.Oracle.C07Oracle.
@@ -38,8 +39,8 @@ Print Assumptions C07_initial.
    - unblock = false leaves the ring unchanged; it is false on an empty ring and on a committed head record;
    - unblock = true changed exactly the header of the slot at the consumer position (every other slot, the
      bodies and all counters of the ring are the same) into a padding record of length L > 0 that lies inside
-     the data area, does not pass the producer position, and ends at the producer position or at the start of
-     the next slot. *)
+     the data area, does not pass the producer position, ends at the producer position or at the start of
+     the next slot, and covers only space that was claimed and never committed. *)
 Theorem C07_unblock : forall lo cfg, Inv lo cfg -> cons_idle (g_cons cfg) ->
   let R := g_ring cfg in
   (snd (unblock R) = false -> fst (unblock R) = R) /\
@@ -50,7 +51,10 @@ Theorem C07_unblock : forall lo cfg, Inv lo cfg -> cons_idle (g_cons cfg) ->
        fst (unblock R) = set_slots R (set_hdr L PAD s1 :: rest) /\
        0 < L /\ r_head R mod r_cap R + align L 8 <= r_cap R /\
        r_head R + align L 8 <= r_tail R /\
-       (r_head R + align L 8 = r_tail R \/ exists s, In s rest /\ s_pos s = r_head R + align L 8)).
+       (r_head R + align L 8 = r_tail R \/ exists s, In s rest /\ s_pos s = r_head R + align L 8) /\
+       (forall x, In x rest -> s_pos x < r_head R + align L 8 -> s_len x = 0) /\
+       (s_len s1 < 0 -> L = - s_len s1) /\
+       (s_len s1 = 0 -> r_head R mod r_cap R + align L 8 < r_cap R)).
 Proof. exact unblock_spec. Qed.
 Print Assumptions C07_unblock.
 
@@ -70,6 +74,23 @@ Theorem C07_order : forall lo cfg, Inv lo cfg ->
   r_hc R <= r_head R /\ r_head R <= r_tail R /\ r_tail R <= r_head R + r_cap R.
 Proof. exact inv_order. Qed.
 Print Assumptions C07_order.
+
+(* C07_after: later writes and reads behave per C06.  The memory unblock leaves behind is exactly (`render`
+   equal, counters equal) the memory of a configuration that satisfies the invariant again: the claims the
+   padding covers (all of them never committed) are described as the one padding slot, and the producers that
+   owned them - which are dead - are out of the game (pc PDone); all other producers and the consumer are
+   unchanged.  Every later step of the consumer and of the other producers from there is covered by
+   C06_conc_step / C06_conc_invariant and their corollaries. *)
+Theorem C07_after : forall lo cfg, Inv lo cfg -> cons_idle (g_cons cfg) ->
+  let R := g_ring cfg in
+  snd (unblock R) = true ->
+  exists swept suffix pad,
+    r_slots R = swept ++ suffix /\ swept <> [] /\ Forall (fun s => s_len s <= 0) swept /\
+    s_type pad = PAD /\ s_pos pad = r_head R /\ s_span pad = span_sum swept /\
+    let cfg' := mkCfg (set_slots R (pad :: suffix)) (g_cons cfg) (retire swept (g_prods cfg)) in
+    Inv lo cfg' /\ render (g_ring cfg') = render (fst (unblock R)).
+Proof. exact after_unblock. Qed.
+Print Assumptions C07_after.
 
 (* the predicate with which the check judges one unblock() of the implementation - dump before, dump after,
    result, head, tail, known claim boundaries - is true of the model's unblock in every reachable configuration *)
